@@ -1,10 +1,10 @@
 SPECIFICATION Spec
 CONSTANTS
-  MaxN = 6
-  MaxOps = 4
-  MaxAttempt = 12
+  MaxN = 4
+  MaxOps = 3
+  MaxAttempt = 7
   Kinds = {"dkg"}
   Slots = {1, 2}
-  AllOrders = FALSE
+  AllCalls = FALSE
   Variant = "hazard"
 INVARIANTS TypeOK Agreement ExcludedWellFormed OnlyReady SigningExact DkgQualified ErrorsExact
